@@ -195,6 +195,33 @@ def check_neg_string(cx, rep, nm):
         rep.bad('HELP', f.qname, 'neg-sign', '`p = -n` is not converted from "-" + digits', f.file, f.line)
 
 
+def name_tests_in_conversion(cx, f, g, depth=0):
+    """does the value-conversion helper of parameter arm g (or a helper it delegates to) look at the *name* the parameter was spelled
+    with (`path.is_ident("..")`, a comparison of the path's identifier with a string — also inside assert!/debug_assert!)?
+    -> (helper qname, offending text, file, line) or None"""
+    if g.conv is None:
+        return None
+    segs = g.conv[0].split('::')
+    seen = set()
+    todo = list(cx.crate.find_fn(f.module, segs, f.self_ty))
+    while todo and len(seen) < 6:
+        h = todo.pop()
+        if id(h) in seen:
+            continue
+        seen.add(id(h))
+        hw = cx.fw(h)
+        for ev in hw.events:
+            if ev.kind == 'mcall' and ev.method == 'is_ident':
+                return (h.qname, es(ev.node)[:60], h.file, ev.line)
+            if ev.kind == 'macro' and ev.name in ('assert', 'debug_assert', 'assert_eq', 'debug_assert_eq') and 'is_ident' in (ev.mac.get('text') or ''):
+                return (h.qname, '%s!(%s)' % (ev.name, (ev.mac.get('text') or '')[:50]), h.file, ev.line)
+            if ev.kind == 'binary' and ev.op == '==' and (('get_ident' in es(ev.node)) or ('path()' in es(ev.node).replace(' ', ''))) and '"' in es(ev.node):
+                return (h.qname, es(ev.node)[:60], h.file, ev.line)
+            if ev.kind == 'call' and ev.path and ev.path.split('::')[-1].startswith('meta_name_value_2_'):
+                todo += cx.crate.find_fn(h.module, ev.path.split('::'), h.self_ty)
+    return None
+
+
 def check_alias_short_indep(cx, facts, rep):
     for mp in meta_parsers(cx):
         m = MetaParserModel(cx, mp)
@@ -207,7 +234,13 @@ def check_alias_short_indep(cx, facts, rep):
             if len(names) > 1:
                 arm = [g for g in m.params if set(g.names) == set(names)]
                 if arm:
-                    rep.ok('ALIAS', '%s|%s' % (where, '|'.join(names)), {'parser': where, 'aliases': list(names)})
+                    nt = name_tests_in_conversion(cx, f, arm[0])
+                    if nt:
+                        rep.bad('ALIAS', where, '|'.join(names) + '-name-test',
+                                'the conversion of the parameter spelled %s goes through `%s`, which tests the parameter\'s own name (%s): the aliases are not interchangeable' % (list(names), nt[0], nt[1]),
+                                nt[2], nt[3])
+                    else:
+                        rep.ok('ALIAS', '%s|%s' % (where, '|'.join(names)), {'parser': where, 'aliases': list(names)})
                 else:
                     rep.bad('ALIAS', where, '|'.join(names), 'the spellings %s are not alternatives of one arm (arms: %s)' % (list(names), [g.names for g in m.params]), f.file, f.line)
         # INDEP: an arm may only touch its own flag/targets
